@@ -70,18 +70,6 @@ Definition enc_obs (o : obs) : list Z :=
   end.
 Definition obs_eqb (a b : obs) : bool := zlist_eqb (enc_obs a) (enc_obs b).
 
-(* ---------- state sets ---------- *)
-Definition sset := list (list Z * state).        (* encoding kept beside the state *)
-Definition mk (s : state) : list Z * state := (enc_state s, s).
-Fixpoint mem_enc (e : list Z) (S : sset) : bool :=
-  match S with [] => false | (e', _) :: t => zlist_eqb e e' || mem_enc e t end.
-Fixpoint add_all (new : list state) (S : sset) (fresh : sset) : sset * sset :=
-  match new with
-  | [] => (S, fresh)
-  | s :: t => let e := enc_state s in
-              if mem_enc e S then add_all t S fresh else add_all t ((e, s) :: S) ((e, s) :: fresh)
-  end.
-
 (* ---------- hidden steps ---------- *)
 Definition hidden_cands (k : cfg) (s : state) : list label :=
   [LServeCb; LPublish; LSdBegin; LSdPassEnd; LSdRetry; LAfterClose]
@@ -98,20 +86,15 @@ Definition succs_by (k : cfg) (s : state) (ls : list label) (want : option obs) 
                 end in
     if same then match step_now k s l with Some s' => [s'] | None => [] end else []) ls.
 
-Definition hidden_succs (k : cfg) (s : state) : list state := succs_by k s (hidden_cands k s) None.
+(* Shutdown's return: the step that releases mu is not what the log records -- the caller logs the
+   return value after it has received it, by which time connection goroutines may already have
+   untracked and run their close callbacks.  The releasing step is therefore treated as hidden and
+   the logged return is checked against the state ([sd = SdReturned e], no newer call pending). *)
+Definition sd_return_succs (k : cfg) (s : state) : list state :=
+  flat_map (fun l => match step_now k s l with Some s' => [s'] | None => [] end) [LSdReturn; LSdTimeout].
 
-(* breadth-first closure under hidden steps; None = fuel exhausted *)
-Fixpoint closure (fuel : nat) (k : cfg) (S : sset) (frontier : sset) : option sset :=
-  match frontier with
-  | [] => Some S
-  | (_, s) :: rest =>
-      match fuel with
-      | O => None
-      | S f => let '(S', fresh) := add_all (hidden_succs k s) S [] in closure f k S' (rest ++ fresh)
-      end
-  end.
-
-Definition close_set (k : cfg) (S : sset) : option sset := closure (200 * 100)%nat k S S.
+Definition hidden_succs (k : cfg) (s : state) : list state :=
+  succs_by k s (hidden_cands k s) None ++ sd_return_succs k s.
 
 (* ---------- events ---------- *)
 Definition obs_cands (n : nat) (o : obs) : list label :=
@@ -162,35 +145,6 @@ Definition parse_event (v : val) : option event :=
   | _ => None
   end.
 
-Definition apply_event (k : cfg) (ev : event) (S : sset) : option sset :=
-  match close_set k S with
-  | None => None
-  | Some C =>
-      match ev with
-      | EObs o =>
-          let next := flat_map (fun es => let s := snd es in succs_by k s (obs_cands (length (conns s)) o) (Some o)) C in
-          Some (fst (add_all next [] []))
-      | EClientRecv c n =>
-          Some (filter (fun es => match LifecycleModel.get (snd es) c with Some x => (n <=? replied x)%nat | None => false end) C)
-      | EClientClosed c =>
-          Some (filter (fun es => match LifecycleModel.get (snd es) c with Some x => negb (sock x) | None => false end) C)
-      end
-  end.
-
-Fixpoint replay (k : cfg) (evs : list val) (S : sset) : option sset :=
-  match evs with
-  | [] => Some S
-  | v :: t =>
-      match parse_event v with
-      | None => None
-      | Some ev =>
-          match apply_event k ev S with
-          | Some ((_ :: _) as S') => replay k t S'
-          | _ => None                         (* no state of the LTS is compatible with the log *)
-          end
-      end
-  end.
-
 (* ---------- quiescent summary ---------- *)
 Definition conn_class (x : conn) : Z :=
   match ph x with PRejected => 1 | PDone => 2 | PAccepted => 3 | _ => 0 end.
@@ -206,7 +160,7 @@ Definition summary (s : state) : val :=
    the observable steps that do not need the environment (a peer connecting / sending / hanging up,
    a caller invoking Shutdown or cancelling, Shutdown's own context expiring, an I/O fault) *)
 Definition autonomous_cands (s : state) : list label :=
-  [LServeCb; LServeReturn EClosed; LSdReturn]
+  [LServeCb; LServeReturn EClosed]
   ++ flat_map (fun c =>
        [LAcceptCb c (count s + 1) true; LRejectClose c; LConnExit c; LErrCb c; LCloseCb c;
         LHandlerEnd c true; LReplyWrite c true]
@@ -223,24 +177,107 @@ Definition quiescent (k : cfg) (s : state) : bool :=
 Definition cfg_of (z : Z) : cfg :=
   {| on_serve := Z.testbit z 0; on_error := Z.testbit z 1; on_accept := Z.testbit z 2; on_close := Z.testbit z 3 |}.
 
-(* all quiescent final states must project to the same summary *)
-Fixpoint all_same (v : val) (l : list val) : bool :=
-  match l with [] => true | w :: t => val_eqb v w && all_same v t end.
+Fixpoint parse_events (l : list val) : option (list event) :=
+  match l with
+  | [] => Some []
+  | v :: t => match parse_event v, parse_events t with Some e, Some r => Some (e :: r) | _, _ => None end
+  end.
+
+(* ---------- the validator ----------
+   Decides whether SOME run of the LTS produces the log: the set of LTS states compatible with the
+   log so far is explored depth-first (the observable step for the next event if it is enabled, else
+   hidden steps -- those of the event's own goroutine first), with the set of (position, state) pairs
+   already seen kept so that nothing is explored twice and hidden cycles (Shutdown's retry loop)
+   terminate.  After the last event the run must be extendable by hidden steps to a final state; its
+   projection is the summary.  A log that no run produces exhausts the search: [None]. *)
+Definition seen := list (nat * list Z).
+Fixpoint mem_seen (n : nat) (e : list Z) (V : seen) : bool :=
+  match V with [] => false | (m, e') :: t => (Nat.eqb n m && zlist_eqb e e') || mem_seen n e t end.
+
+Definition ev_gor (ev : event) : option gor :=
+  match ev with
+  | EObs o => match o with
+              | OServeCb | OAccept _ | OAcceptCb _ _ _ | OServeReturn _ => Some GServe
+              | OConnClose c | ORead c _ | OHandlerStart c | OHandlerEnd c _ | OWrite c _ | OCloseCb c _ => Some (GConn c)
+              | OSdCall | OSdReturn _ => Some GShutdown
+              | _ => None
+              end
+  | EClientRecv c _ | EClientClosed c => Some (GConn c)
+  end.
+Definition gor_eqb (a b : gor) : bool :=
+  match a, b with
+  | GServe, GServe | GShutdown, GShutdown | GCaller, GCaller | GAfter, GAfter => true
+  | GConn c, GConn d => Nat.eqb c d
+  | _, _ => false
+  end.
+
+(* hidden successors, those of goroutine g first *)
+Definition hidden_labels (k : cfg) (s : state) : list label :=
+  filter (fun l => match observe k s l with None => true | Some _ => false end) (hidden_cands k s) ++ [LSdReturn; LSdTimeout].
+Definition hidden_succs_for (k : cfg) (s : state) (g : option gor) : list state :=
+  let ls := hidden_labels k s in
+  let mine := filter (fun l => match g with Some g' => gor_eqb (label_gor l) g' | None => false end) ls in
+  let rest := filter (fun l => match g with Some g' => negb (gor_eqb (label_gor l) g') | None => true end) ls in
+  flat_map (fun l => match step_now k s l with Some s' => [s'] | None => [] end) (mine ++ rest).
+
+(* ways of consuming event ev in state s *)
+Definition consume (k : cfg) (ev : event) (s : state) : list state :=
+  match ev with
+  | EObs (OSdReturn EPanic) => succs_by k s [LSdBegin] (Some (OSdReturn EPanic))
+  | EObs (OSdReturn e) =>
+      if negb (sd_req s) && match sd s with SdReturned e' => enc_err e =? enc_err e' | _ => false end then [s] else []
+  | EObs o => succs_by k s (obs_cands (length (conns s)) o) (Some o)
+  | EClientRecv c n => match LifecycleModel.get s c with Some x => if (n <=? replied x)%nat then [s] else [] | None => [] end
+  | EClientClosed c => match LifecycleModel.get s c with Some x => if sock x then [] else [s] | None => [] end
+  end.
+
+(* search state: what has been seen and how many expansions are left *)
+Definition sstate := (seen * nat)%type.
+
+Fixpoint dfs (depth : nat) (k : cfg) (evs : list event) (s : state) (st : sstate) : option state * sstate :=
+  match depth with
+  | O => (None, st)
+  | S d =>
+      let '(V, budget) := st in
+      match budget with
+      | O => (None, st)
+      | S b =>
+          let n := length evs in
+          let e := enc_state s in
+          if mem_seen n e V then (None, st)
+          else
+            let st1 : sstate := ((n, e) :: V, b) in
+            let try_all :=
+              fix try_all (opts : list (list event * state)) (st : sstate) : option state * sstate :=
+                match opts with
+                | [] => (None, st)
+                | (evs', s') :: rest =>
+                    match dfs d k evs' s' st with
+                    | (Some r, st') => (Some r, st')
+                    | (None, st') => try_all rest st'
+                    end
+                end in
+            match evs with
+            | [] =>
+                if quiescent k s then (Some s, st1)
+                else try_all (map (fun s' => ([], s')) (hidden_succs_for k s None)) st1
+            | ev :: t =>
+                try_all (map (fun s' => (t, s')) (consume k ev s)
+                         ++ map (fun s' => (evs, s')) (hidden_succs_for k s (ev_gor ev))) st1
+            end
+      end
+  end.
 
 Definition run_lifecycle (a : list val) : val :=
   match a with
   | [VI kz; VL _script; VL evs] =>
       let k := cfg_of kz in
-      match replay k evs [mk init] with
+      match parse_events evs with
       | None => v_bad
-      | Some S0 =>
-          match close_set k S0 with
-          | None => v_bad
-          | Some C =>
-              match map (fun es => summary (snd es)) (filter (fun es => quiescent k (snd es)) C) with
-              | [] => VL [VI 98]                          (* no quiescent state: the run was not finished *)
-              | v :: t => if all_same v t then v_ok [v] else VL [VI 97]
-              end
+      | Some l =>
+          match fst (dfs (40 * 100)%nat k l init ([], (600 * 100)%nat)) with
+          | Some s => v_ok [summary s]
+          | None => v_bad                      (* no run of the LTS produces this log *)
           end
       end
   | _ => v_bad
@@ -256,12 +293,6 @@ Definition KF_ACCEPT_CANCEL_LEAK : N := 165.   (* connection accepted while the 
 Definition KF_LATE_TRACK : N := 166.           (* connection accepted before, tracked after Shutdown survives it *)
 Definition KF_SHUTDOWN_UNSERVED : N := 167.    (* Shutdown before serve published the listener panics *)
 Definition KF_SHUTDOWN_LOAD_RACE : N := 168.   (* reply lost through the CAS-failed / Load-saw-idle window *)
-
-Fixpoint parse_events (l : list val) : option (list event) :=
-  match l with
-  | [] => Some []
-  | v :: t => match parse_event v, parse_events t with Some e, Some r => Some (e :: r) | _, _ => None end
-  end.
 
 Definition is_obs (f : obs -> bool) (e : event) : bool := match e with EObs o => f o | _ => false end.
 Definition cnt (f : obs -> bool) (l : list event) : nat := List.length (filter (is_obs f) l).
